@@ -88,7 +88,8 @@ def fresh(shape):
     lst = [o, copy.deepcopy(d) if shape != "shared-objects" else dict(d)]
     if shape == "aliased":
         lst = [o, o]
-    a = dict(d=d, o=o, sco=sco, od=od, marks=marks, sels=sels, lst=lst, red=RED, pats=["[a:b = 1]", "[a:b = 2] OR [a:b = 1]"],
+    lst20 = [stix2.parse(copy.deepcopy(od)), copy.deepcopy(od)]
+    a = dict(d=d, o=o, sco=sco, od=od, lst20=lst20, marks=marks, sels=sels, lst=lst, red=RED, pats=["[a:b = 1]", "[a:b = 2] OR [a:b = 1]"],
              rel=dict(type="relationship", spec_version="2.1", id="relationship--" + U + "3", created=TS, modified=TS, relationship_type="uses", source_ref=d["id"], target_ref="tool--" + U + "4"),
              defaults={"external_references": [copy.deepcopy(ext) if shape != "noncanonical-hashes" else {"source_name": "s", "url": "u"}], "object_marking_refs": [GREEN.id]},
              filters=[["labels", "in", list(sels)], ["name", "=", "n"]], opts={"pretty": True, "indent": 2})
@@ -174,6 +175,12 @@ def ops():
         # -- bundles
         "bundle:args": lambda a: stix2.v21.Bundle(a["o"], a["lst"], allow_custom=True),
         "bundle:objects": lambda a: stix2.v21.Bundle(objects=a["lst"], allow_custom=True),
+        "bundle:args-list-then-object": lambda a: stix2.v21.Bundle(a["lst"], a["o"], allow_custom=True),
+        "bundle:args-list-object-and-objects": lambda a: stix2.v21.Bundle(a["lst"], a["o"], objects=a["lst"], allow_custom=True),
+        "bundle:args-two-lists": lambda a: stix2.v21.Bundle(a["lst"], a["lst"], allow_custom=True),
+        "bundle20:args-object-then-list": lambda a: stix2.v20.Bundle(a["lst20"][0], a["lst20"]),
+        "bundle20:args-list-then-object": lambda a: stix2.v20.Bundle(a["lst20"], a["lst20"][0], objects=a["lst20"]),
+        "bundle20:objects": lambda a: stix2.v20.Bundle(objects=a["lst20"]),
         "bundle:get_obj": lambda a: stix2.v21.Bundle(objects=a["lst"], allow_custom=True).get_obj(a["o"].id),
         # -- factory / environment
         "env:factory-create": lambda a: ObjectFactory(object_marking_refs=a["defaults"]["object_marking_refs"], external_references=a["defaults"]["external_references"])
